@@ -182,8 +182,8 @@ def marker_writers(res: CheckResult, prog: Program, marker: str):
                 res.add('MARKER-WRITER', fi.short, f'use of the literal {marker!r}', par_ok,
                         '' if par_ok else f'{fi.short} mentions the completion marker: only RunningOrderEnd.merge may write it and __add__/completed read it',
                         fi.file, c.lineno)
-    if n < 3:
-        res.error(f'MARKER-WRITER: expected the marker literal {marker!r} in the writer and two readers, found {n} uses')
+    res.add('MARKER-WRITER', 'package', f'the literal {marker!r} appears in the writer and both readers', n >= 3,
+            '' if n >= 3 else f'the marker literal read by __add__ ({marker!r}) is used only {n} times: writer and readers no longer agree')
 
 
 def detect_completed(res: CheckResult, prog: Program):
